@@ -98,6 +98,10 @@ def run(tier, seed, replay=None):
             return subprocess.Popen(cmd, cwd=cwd, env=env, stdout=subprocess.DEVNULL, stderr=subprocess.DEVNULL), o, e
         runs = [("base", d, None, ()), ("rep1", d, None, ()), ("rep2", d, None, ()),
                 ("perturb", d, {"MALLOC_PERTURB_": "165", "MALLOC_ARENA_MAX": "1"}, ()),
+                # every allocation through mmap: objects come at descending addresses, which reverses the iteration order
+                # of every container keyed by object address
+                ("mmap", d, {"MALLOC_MMAP_THRESHOLD_": "0"}, ()),
+                ("mmap32", d, {"MALLOC_MMAP_THRESHOLD_": "32", "MALLOC_TOP_PAD_": "0"}, ()),
                 ("bigenv", d, {"VERIF_PADDING_%d" % k: "x" * 3000 for k in range(30)}, ()),
                 ("locale", d, {"LANG": "tr_TR.UTF-8", "LC_ALL": "C.UTF-8", "TZ": "Pacific/Kiritimati"}, ())]
         if setarch:
@@ -140,7 +144,7 @@ def run(tier, seed, replay=None):
     rep.coverage.update({
         "programs": len(progs), "evaluations": stats["runs"], "distinct_nontrivial": len(distinct),
         "traces_validated_against_impl": stats["runs"], "disagreements_checked": len(rep.violations),
-        "rule": "per program: 3 plain repetitions, MALLOC_PERTURB_, large environment, locale/TZ, ASLR off (setarch -R), another working directory, and 6-12 concurrent compilations in one directory; all must give the same (font sha256, diagnostics sha256, exit status); distinct = distinct (program, font hash)",
+        "rule": "per program: 3 plain repetitions, MALLOC_PERTURB_, allocation through mmap (reversed address order), large environment, locale/TZ, ASLR off (setarch -R), another working directory, and 6-12 concurrent compilations in one directory; all must give the same (font sha256, diagnostics sha256, exit status); distinct = distinct (program, font hash)",
         "samples": samples, "exhaustive": False,
     })
     rep.assumptions += ["the interleavings of concurrent runs are whatever the scheduler produced (exploration, not proof)",
